@@ -23,6 +23,7 @@ type Image struct {
 	symAddr    []uintptr // sorted entries of FUNC symbols from .symtab
 	symSize    map[uintptr]uintptr
 	symName    map[uintptr]string
+	byName     map[string]uintptr
 }
 
 // Region is a range of text bytes that is allowed to differ from the pristine image.
@@ -80,6 +81,20 @@ func Snapshot() (*Image, error) {
 	return img, nil
 }
 
+var (
+	shared    *Image
+	sharedErr error
+)
+
+// Shared returns the process-wide image, snapshotting at the first call (simnode calls it at
+// start-up, before goom writes anything).
+func Shared() (*Image, error) {
+	if shared == nil && sharedErr == nil {
+		shared, sharedErr = Snapshot()
+	}
+	return shared, sharedErr
+}
+
 // SymAt returns the ELF symbol containing addr (name, entry, size).
 func (im *Image) SymAt(addr uintptr) (string, uintptr, uintptr) {
 	i := sort.Search(len(im.symAddr), func(i int) bool { return im.symAddr[i] > addr }) - 1
@@ -88,6 +103,17 @@ func (im *Image) SymAt(addr uintptr) (string, uintptr, uintptr) {
 	}
 	e := im.symAddr[i]
 	return im.symName[e], e, im.symSize[e]
+}
+
+// Lookup returns the entry of the FUNC symbol with the given name (0 if absent).
+func (im *Image) Lookup(name string) uintptr {
+	if im.byName == nil {
+		im.byName = make(map[string]uintptr, len(im.symName))
+		for a, n := range im.symName {
+			im.byName[n] = a
+		}
+	}
+	return im.byName[name]
 }
 
 // SymSize returns the ELF symbol size of the function starting at entry (0 if unknown).
